@@ -32,6 +32,9 @@ package channeldb
 //@   site mapupdate heightDiffs: assert arg(key) == addRef.Height
 //@   site lookup heightDiffs: assert arg(key) == addRef.Height
 //@   site call ackAddHtlcsAtHeight as bucket: assert arg(sourceBkt) == ret(NestedReadWriteBucket) && ret(NestedReadWriteBucket) != nil
+//@   // success means every reference was acked: each height bucket went through ackAddHtlcsAtHeight and that call reported nil
+//@   loop 1 step called(ackAddHtlcsAtHeight) && ret(ackAddHtlcsAtHeight) == nil
+//@   ensures result == nil && len(addRefs) > 0 ==> called(NestedReadWriteBucket) && ret(NestedReadWriteBucket) != nil
 //@
 //@ func (c *ChannelStateDB) UpdateChannelCommitment$1
 //@   props C03 C02
@@ -113,6 +116,7 @@ package channeldb
 //@   site call NestedReadWriteBucket: assert arg(0) == ret(ReadWriteBucket)
 //@   site call ackSettleFailsAtHeight: assert arg(destBkt) == ret(NestedReadWriteBucket) && ret(NestedReadWriteBucket) != nil &&
 //@        arg(height) == height && arg(indexes) == indexes
+//@   loop 2 step called(ackSettleFailsAtHeight) && ret(ackSettleFailsAtHeight) == nil
 //@
 //@ func ackSettleFailsAtHeight
 //@   props C08
@@ -123,6 +127,7 @@ package channeldb
 //@   site call Get: assert arg(0) == ret(NestedReadWriteBucket) && arg(key) == settleFailFilterKey
 //@   site call Set: assert arg(1) == index && ret(Decode) == nil
 //@   site call Put: assert arg(0) == ret(NestedReadWriteBucket) && arg(key) == settleFailFilterKey && ret(Encode) == nil && arg(value) == ret(Bytes)
+//@   ensures result == nil ==> called(NestedReadWriteBucket) && (ret(NestedReadWriteBucket) == nil || (called(Put) && ret(Put) == nil))
 //@
 //@ func ackAddHtlcsAtHeight
 //@   props C08
@@ -133,6 +138,7 @@ package channeldb
 //@   site call Get: assert arg(0) == ret(NestedReadWriteBucket) && arg(key) == ackFilterKey
 //@   site call Set: assert arg(1) == index && ret(Decode) == nil
 //@   site call Put: assert arg(0) == ret(NestedReadWriteBucket) && arg(key) == ackFilterKey && ret(Encode) == nil && arg(value) == ret(Bytes)
+//@   ensures result == nil ==> called(NestedReadWriteBucket) && (ret(NestedReadWriteBucket) == nil || (called(Put) && ret(Put) == nil))
 //@
 //@ func (p *ChannelPackager) SetFwdFilter
 //@   props C08
@@ -152,6 +158,7 @@ package channeldb
 //@   site call makeLogKey nth 0: assert arg(0) == ret(ToUint64)
 //@   site call makeLogKey nth 1: assert arg(0) == height
 //@   site call DeleteNestedBucket: assert arg(0) == ret(NestedReadWriteBucket)
+//@   ensures result == nil ==> called(ReadWriteBucket) && (ret(ReadWriteBucket) == nil || (called(DeleteNestedBucket) && ret(DeleteNestedBucket) == nil))
 //@
 //@ // ---- C02/C03: a signed-but-unrevoked commitment is persisted (with lastWasRevoke = false and the acks of the
 //@ // ---- updates it carries) in the same transaction, and only for a channel that is not borked
@@ -189,6 +196,10 @@ package channeldb
 //@   site call CreateBucketIfNotExists nth 3: assert arg(1) == failSettleBucketKey && arg(0) == retn(CreateBucketIfNotExists, 0, 1)
 //@   site call putLogUpdate nth 0: assert arg(0) == retn(CreateBucketIfNotExists, 0, 2) && arg(1) == wrap(i, 16) && arg(2) == addr(fwdPkg.Adds[i])
 //@   site call putLogUpdate nth 1: assert arg(0) == retn(CreateBucketIfNotExists, 0, 3) && arg(1) == wrap(i, 16) && arg(2) == addr(fwdPkg.SettleFails[i])
+//@   // success means the package IS on disk: every add and every settle/fail went through putLogUpdate, and both filters were put
+//@   loop 0 step called(putLogUpdate, 0) && ret(putLogUpdate, 0) == nil
+//@   loop 1 step called(putLogUpdate, 1) && ret(putLogUpdate, 1) == nil
+//@   ensures result == nil ==> called(Put, 0) && ret(Put, 0) == nil && called(Put, 1) && ret(Put, 1) == nil
 //@   site call Encode nth 0: assert arg(0) == fwdPkg.AckFilter
 //@   site call Encode nth 1: assert arg(0) == fwdPkg.SettleFailFilter
 //@   site call Put nth 0: assert arg(0) == retn(CreateBucketIfNotExists, 0, 1) && arg(key) == ackFilterKey && arg(value) == ret(Bytes, 0) && ret(Encode, 0) == nil
@@ -200,6 +211,7 @@ package channeldb
 //@   site call uint16Key: assert arg(0) == idx
 //@   site call Put: assert arg(0) == bkt && arg(key) == ret(uint16Key) && arg(value) == ret(Bytes) && ret(serializeLogUpdate) == nil
 //@   site call serializeLogUpdate: assert arg(1) == htlc
+//@   ensures result == nil ==> called(Put) && ret(Put) == nil
 //@
 //@ // ---- recording the confirmed SCID of a zero-conf channel rewrites the record from what is ON DISK, not from the caller's
 //@ // ---- (possibly stale) handle: commitment heights and the revocation store of the stored channel are not rolled back
